@@ -707,7 +707,7 @@ class Interp:
                 grew = False
                 for b in backs:
                     for name, v in b.env.items():
-                        if name.startswith("__active"):
+                        if name.startswith("__active") or name.startswith("__head") or name.startswith("__last"):
                             continue
                         old = h.env.get(name, "absent") if name in h.env else "absent"
                         if old == "absent":
@@ -743,6 +743,7 @@ class Interp:
             c = h.env[info["cname"]].t
             h.assume(z3.And(c >= 0, c <= info["n_items"]))
         dec0 = self.specs.eval_invariant(self, contract, dec, h, node, info, boolean=False) if dec else None
+        h.env["__head_env"] = (dict(h.env), dict(h.heap))          # ghost snapshot: `name__head` in hints / invariants
         for hn in contract.hints.get((ordn, "head"), []):
             self.oblige(h, self.specs.eval_invariant(self, contract, hn, h, node, info), "hint", hn, wh)
         exits, backs, others = self.loop_body_once(node, h, kind, info)
